@@ -522,3 +522,14 @@ INSTANCES.update({
                         prog={1: [S("root", tr=1, smp=True), S("child", ps=[101])],
                               2: [S("lcstart"), S("levent"), S("lenter"), S("lexit"), S("lprops"), S("lccollect")]}), "edge", {}),
 })
+
+# attachments of one class made on both sides of collector cycles (wave 10: what a later cycle brings mounted before what
+# an earlier one parked).  Where a cycle falls does not change the terminal state, so the menu instances print one
+# placement per count of cycles; here every placement is its own transition (edge emission).
+LIT_ATTACH_CYCLES = dict(threads=[1], born=[1], K=16, MaxCycles=3, MaxAtt=4,
+    prog={1: [S("root", tr=1, smp=True), S("child", ps=[101]), S("sprops", h=102), S("sevent", h=102), S("sprops", h=102), S("sevent", h=102),
+              S("drop", h=102), S("drop", h=101), S("exit")]})
+INSTANCES.update({
+    "lit_attach_cycles": (LIT_ATTACH_CYCLES, "edge", {}),
+    "lit_attach_cycles_c": (with_(LIT_ATTACH_CYCLES, cancelable=True), "edge", {}),
+})
